@@ -116,7 +116,8 @@ ReqRev(kind) ==
 Clamp(req) == IF req = 0 \/ req > rev THEN rev ELSE req
 
 \* the timeout revision: with Expiry, every mark older than the TTL is consumed and the newest of
-\* them is used; "ttl" \in {0, 1, ...} = how many of the OLDEST marks have aged beyond the TTL
+\* them is used; aged = how many of the OLDEST marks have aged beyond the TTL (the explored
+\* behaviours let either none or all of them age between two requests)
 TimeoutRev(aged) == IF aged = 0 THEN 0 ELSE marks[aged]
 
 MaxDels == 3 * Cardinality(Keys) + MaxOps
@@ -152,7 +153,7 @@ End == n = MaxOps /\ n' = MaxOps + 1 /\ UNCHANGED <<idx, ver, hver, floor, rev, 
 Next ==
     \/ End
     \/ Write
-    \/ ("compact" \in OpKinds /\ n >= CompactAfter /\ \E kind \in CompactKinds : \E aged \in 0..(IF Expiry THEN Len(marks) ELSE 0) : Compact(kind, aged))
+    \/ ("compact" \in OpKinds /\ n >= CompactAfter /\ \E kind \in CompactKinds : \E aged \in (IF Expiry THEN {0, Len(marks)} ELSE {0}) : Compact(kind, aged))
 
 Spec == Init /\ [][Next]_vars
 
@@ -222,7 +223,9 @@ CompactionSafe == \A R \in Revs : R >= floor => CompactionSafeAt(R)
 
 \* ---- C17 (with Expiry): only Event keys expire, wholly
 OnlyEventsExpire == expired \subseteq EventKeys
-ExpiredWholly == \A k \in expired : idx[k] = NoIdx => TRUE
+\* an expired key is gone wholly (index and every version) unless it was written again afterwards;
+\* either way index and versions stay consistent (the key is writable / re-creatable)
+ExpiredAbsent == \A k \in EventKeys : Writable(idx[k], ver[k])
 NonEventsKeepHistory ==
     \A k \in Keys \ EventKeys : \A R \in Revs : R >= floor =>
         (LET v == NewestLE(ver[k], R) w == NewestLE(hver[k], R) IN IsLive(w) => v = w)
